@@ -19,6 +19,12 @@ def GoVal.isNilValue : GoVal → Bool
   | .ptr _ none => true
   | _ => false
 
+/-- a non-pointer byte slice of length 0 (nil or empty) -/
+def GoVal.isEmptyBytes : GoVal → Bool
+  | .val _ (.bs none) => true
+  | .val _ (.bs (some [])) => true
+  | _ => false
+
 /-- `reflect.DeepEqual` on two values read from resources (times: same instant and
 zone; the identity of `*time.Location` is not modelled). -/
 def deepEqual (a b : GoVal) : Bool := a = b
@@ -32,7 +38,8 @@ def equal (r1 r2 : ResView) : Res Bool :=
     if a1.length ≠ a2.length then .ok false
     else if (a1.zip a2).any (fun p =>
         !deepEqual (r1.get p.1.name) (r2.get p.2.name) &&
-        !((r1.get p.1.name).isNilValue && (r2.get p.2.name).isNilValue)) then .ok false
+        !((r1.get p.1.name).isNilValue && (r2.get p.2.name).isNilValue) &&
+        !((r1.get p.1.name).isEmptyBytes && (r2.get p.2.name).isEmptyBytes)) then .ok false
     else
       let l1 := sortOn (fun r : Rel => r.fromName) r1.rels.vals
       let l2 := sortOn (fun r : Rel => r.fromName) r2.rels.vals
